@@ -571,3 +571,148 @@ func TestC15RepeatedReadGuard(t *testing.T) {
 		}
 	}
 }
+
+// TestC15TransientFault: the stream fails once (an expired read deadline, a transient error) at a drawn byte
+// offset of a well-formed stream and then goes on handing out the remaining bytes. "Once a read has failed every
+// later read reports the same failure": neither the message reader in use nor NextReader may come back to life.
+func TestC15TransientFault(t *testing.T) {
+	col := NewCollector("TestC15TransientFault",
+		"rapid: a well-formed stream of 2-6 frames (kinds, lengths 0..70000 boundary-biased, all length forms), read fragmentation, read-buffer size; one Read of the underlying stream, at a drawn byte offset, fails once with a transient error and the stream then continues; the application reads message by message (drawn read sizes) and after the first failure keeps calling Read on the reader at hand and NextReader (3-6 times each, alternating); oracle: every message completed before the failure is intact; after the first failure every Read returns 0 bytes and the same error, every NextReader the same error, no further message. non-trivial: the fault fell inside a frame (header or payload) with at least one complete frame before or after it").Use(t)
+	rapid.Check(t, func(rt *rapid.T) {
+		n := rapid.IntRange(2, 6).Draw(rt, "nframes")
+		readSize := rapid.SampledFrom([]int{1, 3, 7, 64, 512, 100000}).Draw(rt, "readSize")
+		fragk := rapid.IntRange(0, 3).Draw(rt, "fragk")
+		fine := fragk == 1 || fragk == 2
+		type fr struct {
+			bin  bool
+			data []byte
+		}
+		var frames []fr
+		var stream []byte
+		var starts []int
+		for i := 0; i < n; i++ {
+			l, _ := genWTLen(rt, 4096, fmt.Sprintf("f%d.len", i))
+			if l > 70000 {
+				l = 70000
+			}
+			if (readSize < 64 || fine) && l > 1500 {
+				// byte-wise reading of long messages only costs time
+				l = 126 + l%1300
+			}
+			f := fr{bin: rapid.Bool().Draw(rt, fmt.Sprintf("f%d.bin", i)), data: makePayload(l, byte(i+1))}
+			frames = append(frames, f)
+			starts = append(starts, len(stream))
+			stream = append(stream, wtEncodeForm(f.bin, f.data, rapid.IntRange(0, 2).Draw(rt, fmt.Sprintf("f%d.form", i)))...)
+		}
+		at := rapid.IntRange(0, len(stream)).Draw(rt, "faultAt")
+		var frag []int
+		switch fragk {
+		case 1:
+			frag = []int{1}
+		case 2:
+			frag = rapid.SliceOfN(rapid.IntRange(1, 9), 1, 3).Draw(rt, "frag")
+		case 3:
+			frag = rapid.SliceOfN(rapid.IntRange(1, 5000), 1, 3).Draw(rt, "fragL")
+		}
+		rbs := rapid.SampledFrom([]int{0, 16, 64, 4096, 70000}).Draw(rt, "rbs")
+		server := rapid.Bool().Draw(rt, "server")
+		journal("C15 transient frames=%d faultAt=%d/%d frag=%v rbs=%d readSize=%d", n, at, len(stream), frag, rbs, readSize)
+		pipe := newHalfPipe()
+		pipe.frag = frag
+		pipe.Write(stream)
+		pipe.CloseWrite()
+		pipe.failReadAt, pipe.failReadE, pipe.failReadTransient = int64(at), errTail, true
+		rc := webtrans.NewConn(nil, &memWTStream{in: pipe, out: newHalfPipe()}, server, rbs, 0, nil, nil, nil)
+		var firstErr error
+		var cur io.Reader
+		complete := 0
+		fail := ""
+	loop:
+		for i := 0; i <= n; i++ {
+			mt, r, err := rc.NextReader()
+			if err != nil {
+				firstErr = err
+				break
+			}
+			cur = r
+			var got []byte
+			for {
+				buf := make([]byte, readSize)
+				k, e := r.Read(buf)
+				got = append(got, buf[:k]...)
+				if e == io.EOF {
+					break
+				}
+				if e != nil {
+					firstErr = e
+					break loop
+				}
+			}
+			if i >= n {
+				fail = "a message beyond the last frame was delivered"
+				break
+			}
+			if (mt == webtrans.BinaryMessage) != frames[i].bin || !bytes.Equal(got, frames[i].data) {
+				fail = fmt.Sprintf("message #%d delivered as kind=%d len=%d (equal=%v), frame is bin=%v len=%d", i, mt, len(got), bytes.Equal(got, frames[i].data), frames[i].bin, len(frames[i].data))
+				break
+			}
+			complete++
+		}
+		// which frame did the fault fall into?
+		inside := false
+		for i, st := range starts {
+			end := len(stream)
+			if i+1 < len(starts) {
+				end = starts[i+1]
+			}
+			if at > st && at < end {
+				inside = true
+			}
+		}
+		classes := []string{fmt.Sprintf("frames-before-the-failure=%d", min(complete, 3))}
+		if inside {
+			classes = append(classes, "fault-inside-a-frame")
+		}
+		if firstErr != nil && fail == "" {
+			if firstErr == io.EOF && at >= len(stream) {
+				classes = append(classes, "fault-beyond-the-stream")
+			} else {
+				classes = append(classes, "read-failed")
+				if !errors.Is(firstErr, errTail) && firstErr != io.EOF {
+					// (the reader may wrap or translate the failure; what matters is that it stays the same)
+				}
+				rounds := rapid.IntRange(3, 6).Draw(rt, "rounds")
+				for k := 0; k < rounds && fail == ""; k++ {
+					if cur != nil {
+						buf := make([]byte, readSize)
+						m, e := cur.Read(buf)
+						if m != 0 || e == nil {
+							fail = fmt.Sprintf("after the read failure (%v) a later Read on the same message reader returned %d bytes, err=%v: the failed connection came back to life", firstErr, m, e)
+							break
+						}
+						// a reader whose message ended cleanly before the failure reports io.EOF for ever; any
+						// other reader reports the failure
+						if e != io.EOF && e.Error() != firstErr.Error() {
+							fail = fmt.Sprintf("after the read failure (%v) a later Read reports a different error: %v", firstErr, e)
+							break
+						}
+					}
+					_, r2, e2 := rc.NextReader()
+					if e2 == nil || r2 != nil {
+						fail = fmt.Sprintf("after the read failure (%v) NextReader #%d succeeded: the failed connection came back to life", firstErr, k+1)
+						break
+					}
+					if e2.Error() != firstErr.Error() {
+						fail = fmt.Sprintf("after the read failure (%v) NextReader reports a different error: %v", firstErr, e2)
+					}
+				}
+			}
+		}
+		col.Case(fmt.Sprintf("%d|%d|%v|%d|%d|%v|%x", n, at, frag, rbs, readSize, server, len(stream)), inside && n >= 2,
+			map[string]any{"frames": n, "streamBytes": len(stream), "faultAt": at, "readFrag": frag, "readBuf": rbs, "readSize": readSize, "completeBeforeFailure": complete, "firstError": fmt.Sprint(firstErr)}, classes...)
+		if fail != "" {
+			rt.Fatalf("stream of %d frames (%d bytes), transient read failure at byte %d, read size %d, fragmentation %v: %s", n, len(stream), at, readSize, frag, fail)
+		}
+	})
+	col.RequireClasses(t, "read-failed", "fault-inside-a-frame")
+}
